@@ -103,6 +103,14 @@ def stepC03 (dflt : Int) (d : Nat) (st : PState d) (op : Json) (obs : Json) : Ex
             let spec' : PMap := st.spec.filter (fun e => (stripPrefix p e.1).isNone) ++ srcC.map (fun e => (p ++ e.1, e.2))
             pure (t', optTreeJson (d' + 1) p t' dflt, spec', Json.null)
       | 0, _ => throw "assignp at depth 0"
+    | "imulp" => do
+      -- `h = getPayloadRef(*p); h *= v` at a partial point (the root for []): Point.updateUnder after refAt;
+      -- the walk skips empty elements, i.e. leaves holding the default stay as they are
+      let v ← fInt op "v"
+      let g : Int → Int := fun x => if x = dflt then x else x * v
+      let t' := updateUnder g d (refAt dflt d st.tree p) p
+      let spec' : PMap := st.spec.map (fun e => if (stripPrefix p e.1).isSome then (e.1, g e.2) else e)
+      pure (t', optTreeJson d p t' dflt, spec', Json.null)
     | "posref" =>
       match d, st.tree, snap with
       | d' + 1, tr, sn =>
@@ -116,7 +124,7 @@ def stepC03 (dflt : Int) (d : Nat) (st : PState d) (op : Json) (obs : Json) : Ex
   let mut st' := { st with tree := mtree, spec := sspec, tags := if st.tags.contains k then st.tags else k :: st.tags }
   -- agreement: output and tree after the step
   if !(treeEq d mtree snap) then st' := fail st' false s!"tree after {k} {p} differs from model"
-  if k == "assignp" then
+  if k == "assignp" || k == "imulp" then
     if mout.compress != out.compress then st' := fail st' false s!"assignp {p}: model {mout.compress} impl {out.compress}"
   else if k == "getprefix" then
     if mout.compress != out.compress then st' := fail st' false s!"getprefix {p}: model {mout.compress} impl {out.compress}"
